@@ -122,6 +122,7 @@ type qQuery struct {
 	limit      int // -1 absent
 	offset     int // -1 absent
 	limitFirst bool
+	mayReject  bool // the statement may be rejected (e.g. as ambiguous); if it is answered, the answer must be right
 }
 
 func (q *qQuery) sql() string {
@@ -866,6 +867,9 @@ func (r *queryRunner) check(qw *qWorld, q *qQuery, family string, knownID string
 	rows, fields, err := qw.run(text)
 	r.nQuery++
 	msg := compareResult(ref, rows, fields, err)
+	if _, isPanic := err.(*panicErr); q.mayReject && err != nil && !isPanic {
+		msg = "" // rejecting the statement is acceptable, answering it wrongly is not
+	}
 	nontrivial := ref.err == "" && err == nil && (q.where != nil || len(q.from) > 1 || len(q.orderBy) > 0 || len(q.groupBy) > 0 || q.limit >= 0 || q.offset >= 0)
 	outcome := "ok"
 	if msg != "" {
